@@ -114,6 +114,7 @@ type tr struct {
 	npend    int
 	loops    []*loopCtx
 	optLoop  int      // > 0: inside the body of a loop that folds over option state
+	bresLoop int      // > 0: inside the step of a go_loop_b (the function ends in a bres): what ends the function is LbEnd (..)
 	panics   []string // innermost last: what a panic yields inside the loop bodies being translated
 	forIdx   map[*ast.ForStmt]int
 	closed   map[types.Object]bool // local function values accepted as declared closures
@@ -362,6 +363,14 @@ func (x *tr) letTuple(names []string, rhs string, body func() string) string {
 func scrut(t string) string {
 	if strings.HasPrefix(t, "if ") || strings.HasPrefix(t, "match ") {
 		return "(" + t + ")"
+	}
+	return t
+}
+
+// endB: a term that ends the function (a bres), where it stands inside the step of a go_loop_b
+func (x *tr) endB(t string) string {
+	if x.bresLoop > 0 {
+		return "LbEnd (" + t + ")"
 	}
 	return t
 }
@@ -902,6 +911,8 @@ func (x *tr) expr(e ast.Expr) string {
 				eq = "(Bool.eqb " + a + " " + b + ")"
 			case "bytes":
 				eq = "(bytes_eqb " + a + " " + b + ")"
+			case "err":
+				eq = "(err_eqb " + a + " " + b + ")"
 			default:
 				if src(z.Y) == "nil" {
 					eq = "(is_nil " + a + ")"
@@ -1507,6 +1518,11 @@ func cat(a []ast.Stmt, b []ast.Stmt) []ast.Stmt { return append(append([]ast.Stm
 // effectCall renders a call statement / call assignment with a declared rendering.
 // lhs: the Coq names receiving the results (may be empty).
 func (x *tr) effectCall(c *ast.CallExpr, cs callSpec, lhs []string, n ast.Node, tail func() string) string {
+	if cs.check != nil && cs.pure == "" {
+		if why := cs.check(x, c); why != "" {
+			x.bad(c, why)
+		}
+	}
 	if c.Ellipsis != token.NoPos && !cs.spread {
 		x.bad(c, "call with a spread argument")
 	}
@@ -1566,8 +1582,8 @@ func (x *tr) effectCallWith(c *ast.CallExpr, cs callSpec, lhs []string, n ast.No
 				}
 			}
 			st := tuple(x.t.effects)
-			return fmt.Sprintf("match %s with\n  | BOk %s st_ => %s\n  %s\n  | BRange st_ => %sBRange %s\n  | BPanic p_ st_ => %sBPanic p_ %s\n  end",
-				x.fillWith(cs.state, c, args), resPat, open, body, back, st, back, st)
+			return fmt.Sprintf("match %s with\n  | BOk %s st_ => %s\n  %s\n  | BRange st_ => %s%s\n  | BPanic p_ st_ => %s%s\n  end",
+				x.fillWith(cs.state, c, args), resPat, open, body, back, x.endB("BRange "+st), back, x.endB("BPanic p_ "+st))
 		}
 		if cs.partial {
 			// the callee can panic (None): that ends this function too
@@ -1645,7 +1661,7 @@ func (x *tr) results(z *ast.ReturnStmt) string {
 		for _, e := range x.t.effects {
 			effs = append(effs, x.use(e))
 		}
-		v := fmt.Sprintf(x.t.okfmt, tuple(parts), tuple(effs))
+		v := x.endB(fmt.Sprintf(x.t.okfmt, tuple(parts), tuple(effs)))
 		return x.hoistStmt(mark, func() string { return v })
 	}
 	if x.t.strict {
@@ -1833,6 +1849,9 @@ func (x *tr) seq(stmts []ast.Stmt, k func() string) string {
 			}
 			return "(" + strings.Join(parts, ", ") + ")"
 		}
+		if len(x.loops) > 0 && x.bresLoop > 0 {
+			return x.results(z) // LbEnd (BOk results state)
+		}
 		if len(x.loops) > 0 {
 			// return inside a loop: Go assigns the values to the named results, the fold stops and
 			// the function ends with them
@@ -1898,11 +1917,11 @@ func (x *tr) seq(stmts []ast.Stmt, k func() string) string {
 					x.expr(c) // the count is dropped; the effect is the rebinding hoisted in front of the rest
 					return x.hoistStmt(mark, tail)
 				case "panic":
-					if x.t.panicFmt != "" && len(c.Args) == 1 && len(x.panics) == 0 && x.optLoop == 0 {
+					if x.t.panicFmt != "" && len(c.Args) == 1 && (len(x.panics) == 0 || x.bresLoop > 0) && x.optLoop == 0 {
 						mark := len(x.pending)
 						a := x.expr(c.Args[0])
 						x.noPending(mark, c)
-						return fmt.Sprintf(x.t.panicFmt, a)
+						return x.endB(fmt.Sprintf(x.t.panicFmt, a))
 					}
 					x.checkArgs(c)
 					return x.panicTerm()
@@ -2732,6 +2751,9 @@ func (x *tr) forStrict(z *ast.ForStmt, tail func() string) string {
 	if idx, ok := x.forIdx[z]; ok && idx < len(x.t.fuels) {
 		fuel = x.t.fuels[idx]
 	}
+	if x.t.panicFmt != "" && x.t.okfmt != "" {
+		return x.forBres(z, fuel, tail)
+	}
 	hasRet := false
 	ast.Inspect(z.Body, func(n ast.Node) bool {
 		switch b := n.(type) {
@@ -2813,6 +2835,68 @@ func (x *tr) forStrict(z *ast.ForStmt, tail func() string) string {
 	}
 	return fmt.Sprintf("match go_loop (%s) %s %s with\n  | None => %s\n  | Some %s => %s\n  end",
 		fuel, lam, init, x.panicTerm(), patTuple(vars), rest)
+}
+
+// forBres: a three-clause loop of a function that ends in a bres (BOk results state | BRange state | BPanic v state):
+// go_loop_b, whose step can end the whole function with such a value (return, panic, panic of a callee)
+func (x *tr) forBres(z *ast.ForStmt, fuel string, tail func() string) string {
+	ast.Inspect(z.Body, func(n ast.Node) bool {
+		switch b := n.(type) {
+		case *ast.BranchStmt:
+			if b.Label != nil || (b.Tok != token.CONTINUE && b.Tok != token.BREAK) {
+				x.bad(z, "labelled branch / goto inside a loop")
+			}
+		case *ast.ForStmt, *ast.RangeStmt, *ast.SelectStmt, *ast.FuncLit:
+			if n != ast.Node(z.Body) {
+				x.bad(z, "nested loop / select / function literal")
+			}
+		}
+		return true
+	})
+	stmts := append([]ast.Stmt{}, z.Body.List...)
+	var post []ast.Stmt
+	if z.Post != nil {
+		post = []ast.Stmt{z.Post}
+	}
+	vars := x.outerAssignedIn(append(stmts, post...), z.Body.Pos(), z.Body.End())
+	if len(vars) == 0 {
+		x.bad(z, "loop without a tracked effect")
+	}
+	for _, v := range vars {
+		x.use(v)
+	}
+	if fuel == "" {
+		fuel = x.countingFuel(z, vars)
+	}
+	lc := &loopCtx{
+		cont: func() string { return x.seq(post, func() string { return "LbNext " + paren(tuple(vars)) }) },
+		brk:  func() string { return "LbBreak " + paren(tuple(vars)) },
+	}
+	x.loops = append(x.loops, lc)
+	x.bresLoop++
+	x.panics = append(x.panics, "LbEnd ("+x.t.panicT+")")
+	body := x.bind(vars, func() string {
+		if z.Cond == nil {
+			return x.seq(stmts, lc.cont)
+		}
+		mark := len(x.pending)
+		c := x.expr(z.Cond)
+		return x.hoistStmt(mark, func() string {
+			return fmt.Sprintf("if %s\n  then %s\n  else %s", c, x.seq(stmts, lc.cont), lc.brk())
+		})
+	})
+	x.panics = x.panics[:len(x.panics)-1]
+	x.bresLoop--
+	x.loops = x.loops[:len(x.loops)-1]
+	lam := ""
+	if len(vars) == 1 {
+		lam = fmt.Sprintf("(fun %s => %s)", vars[0], body)
+	} else {
+		lam = fmt.Sprintf("(fun st_ => let '%s := st_ in\n  %s)", tuple(vars), body)
+	}
+	rest := x.bind(vars, tail)
+	return fmt.Sprintf("match go_loop_b (%s) %s %s with\n  | None => %s\n  | Some (LrEnd r_) => r_\n  | Some (LrBreak %s) => %s\n  end",
+		fuel, lam, tuple(vars), x.panicTerm(), patTuple(vars), rest)
 }
 
 // autoCall: an undeclared call of a plain function of the package (no receiver, parameters and one result
